@@ -175,6 +175,22 @@ pub fn same_debug<T: Debug>(a: &T, b: &T, w: &mut Walk) {
     }
 }
 
+/// Number of items one implicit skip took, whatever type the generator chose for the skipper
+/// (`AtomicRepeat<..>` when the grammar defines a skip rule, `Empty` when it believes there is none).
+pub trait SkipLen {
+    fn skip_len(&self) -> usize;
+}
+impl<'i> SkipLen for pest_typed::predefined_node::Empty<'i> {
+    fn skip_len(&self) -> usize {
+        0
+    }
+}
+impl<T> SkipLen for pest_typed::predefined_node::AtomicRepeat<T> {
+    fn skip_len(&self) -> usize {
+        self.content.len()
+    }
+}
+
 pub fn gap(items: usize, w: &mut Walk) {
     w.ev(format!("G{}", items));
 }
